@@ -370,6 +370,11 @@ Definition limit_of (def : Z) (p : param) : Z := match p with PAbsent => def | P
 
 Inductive prelude := PResp (c : oclass) | PRun (sh : shape) (c : pctx).
 
+(* since 5180be1 the planner refuses, before any statement is issued (-> 500): more than 11,000 points per series
+   (FixPeriodPlanner.Process, every matrix query) and more than 100,000 range windows (AggregatorPlanner, was 4e9) *)
+Definition max_points : Z := 11000.
+Definition max_windows : Z := 100000.
+
 Definition plan (sh : shape) (q : request) (from_s to_s stepms lim : Z) : prelude :=
   if q_dur_s q <=? 0 then (match sh with ShRate | ShAggJson => PResp O5xx | _ =>
         PRun sh (mkP (mkFp 0 0 1 1) lim 0 0 (q_instant q)) end)
@@ -379,10 +384,14 @@ Definition plan (sh : shape) (q : request) (from_s to_s stepms lim : Z) : prelud
   let afrom := trunc_to from_s (q_dur_s q) in
   let ato := trunc_to to_s (q_dur_s q) + q_dur_s q in
   let slen := Z.quot ((ato - afrom) * 1000000000) dur in
+  let points := Z.quot (f_to fx - f_from fx) (f_step fx) in
   match sh with
-  | ShAggJson => if 4000000000 <? slen then PResp O5xx
+  | ShAggJson => if max_points <? points then PResp O5xx
+                 else if max_windows <? slen then PResp O5xx
                  else if q_query_err q then PResp O5xx
                  else PRun sh (mkP fx lim (afrom * 1000000000) slen (q_instant q))
+  | ShRate => if max_points <? points then PResp O5xx
+              else if q_query_err q then PResp O5xx else PRun sh (mkP fx lim (afrom * 1000000000) slen (q_instant q))
   | _ => if q_query_err q then PResp O5xx else PRun sh (mkP fx lim (afrom * 1000000000) slen (q_instant q))
   end.
 
